@@ -51,7 +51,7 @@ def run(tier, seed, replay=None):
     if replay:
         with open(replay) as f:
             rk = json.load(f)["key"]
-        cases = [c for c in cases if case_key(c) == rk]
+        cases = [c for c in cases if rk == case_key(c) or rk.startswith(case_key(c) + "|")]
     # one case per (project, distinct outcome): quick tier keeps every cyclic-project terminal and a
     # seed-chosen third of the acyclic ones
     if tier == "quick" and not replay:
